@@ -140,6 +140,8 @@ class Monitor:
         # --- client
         self.futures: list[dict] = []
         self.futures_resolved = 0
+        self.restarts_with_start = 0
+        self.last_start_seq: dict[int, int] = {}
         self.timeline: list = []
 
     # ------------------------------------------------------------------ util
@@ -245,7 +247,12 @@ class Monitor:
         for _, c in g:
             if c == cand:
                 return
-        kind = "after-same-term-append-entries" if self.last_ae_seq.get((v, term), -1) > g[0][0] else "plain"
+        if self.last_start_seq.get(v, -1) > g[0][0]:
+            kind = "after-restart-with-start"  # start() was called again on the voter between the two grants
+        elif self.last_ae_seq.get((v, term), -1) > g[0][0]:
+            kind = "after-same-term-append-entries"
+        else:
+            kind = "plain"
         self.double_votes.setdefault(term, {})[self.names[v]] = kind
         g.append((self.seq, cand))
         if cand == self.names[v]:
@@ -385,7 +392,9 @@ class Monitor:
         elif prev != i:
             self.double_leader_terms.add(term)
             dv = self.double_votes.get(term, {})
-            if any(k == "after-same-term-append-entries" for k in dv.values()):
+            if any(k == "after-restart-with-start" for k in dv.values()):
+                shape = "double-vote-after-restart-with-start"
+            elif any(k == "after-same-term-append-entries" for k in dv.values()):
                 shape = "double-vote-after-same-term-append-entries"
             elif dv:
                 shape = "double-vote"
@@ -632,6 +641,7 @@ class Monitor:
         r.count("futures_resolved", self.futures_resolved)
         r.count("futures_submitted", self.futures_resolved + len(self.futures))
         r.count("log_truncations", self.truncations)
+        r.count("restarts_with_start", self.restarts_with_start)
         r.count("full_scans", self.full_scans)
         r.count("precursor_double_votes", sum(len(v) for v in self.double_votes.values()))
         r.count("precursor_overclaimed_match_index", self.overclaims)
@@ -662,14 +672,16 @@ def build_cluster(case: dict, mon: Monitor):
     net = Network(name="net")
     nodes = []
     mon.sms = [RecordingSM(mon, i) for i in range(len(names))]
+    et_node = case.get("et_node") or {}  # optional per-node election timeout range (public ctor parameters)
     for i, nm in enumerate(names):
+        et = et_node.get(nm, case["et"])
         nodes.append(
             RaftNode(
                 name=nm,
                 network=net,
                 state_machine=mon.sms[i],
-                election_timeout_min=case["et"][0],
-                election_timeout_max=case["et"][1],
+                election_timeout_min=et[0],
+                election_timeout_max=et[1],
                 heartbeat_interval=case["hb"],
             )
         )
